@@ -780,6 +780,16 @@ int32_t tlsVerify(ssl_t *ssl,
         }
         sigAlgTls = *c << 8; c++;
         sigAlgTls += *c; c++;
+        /* RFC 5246 7.4.3: the algorithm must be one of those we offered
+           in our signature_algorithms extension. */
+        if (findFromUint16Array(ssl->supportedSigAlgs,
+                        ssl->supportedSigAlgsLen,
+                        sigAlgTls) < 0)
+        {
+            psTraceErrr("Peer signed with a signature algorithm " \
+                    "we did not offer\n");
+            goto out_illegal_parameter;
+        }
         if (tlsIsSupportedRsaSigAlg(sigAlgTls))
         {
             useRsa = PS_TRUE;
